@@ -29,10 +29,12 @@ theorem sf_exclusive {s : SF.St} (h : SF.Reach s) (t u : Tid)
   rw [e] at d
   rw [← c, d]
 
-/-- the user function runs between `m0` (about to start) and `m1` (running): both are inside the flight. -/
+/-- the user function runs between `m0` (about to start) and `m1` / `mp` (running; `mp`: it is going to panic):
+all inside the flight. -/
 theorem sf_exclusive_fn {s : SF.St} (h : SF.Reach s) (t u : Tid)
-    (ht : s.pc t = .m1) (hu : s.pc u = .m1) (hk : s.key t = s.key u) : t = u :=
-  sf_exclusive h t u (by simp [ht, SF.PC.inFlight]) (by simp [hu, SF.PC.inFlight]) hk
+    (ht : (s.pc t).running = true) (hu : (s.pc u).running = true) (hk : s.key t = s.key u) : t = u :=
+  sf_exclusive h t u (by revert ht; cases s.pc t <;> simp [SF.PC.running, SF.PC.inFlight])
+    (by revert hu; cases s.pc u <;> simp [SF.PC.running, SF.PC.inFlight]) hk
 
 /-- **History form of the exclusion**: the execution intervals `[fstart, fend]` of two different call objects of
 the same key are disjoint — one of them ended before the other started. -/
@@ -81,10 +83,87 @@ theorem sf_never_retained {s : SF.St} (h : SF.Reach s) (r : Ret) (hr : r ∈ s.r
     omega
 
 /-- **Exactly one fresh caller per execution**: among the returned calls that were handed the result of call
-object `c`, the number reported fresh is 1 once the leading call has returned, and 0 before. -/
+object `c`, the number reported fresh is 1 once the leading call has returned, and 0 before — and 0 for ever if
+the function panicked (the leading call then ends with the panic and returns nothing). -/
 theorem sf_one_fresh {s : SF.St} (h : SF.Reach s) (c : CallId) :
-    (s.rets.filter (fun r => r.fresh && r.exec == c)).length = if (s.lret c).isSome then 1 else 0 :=
+    (s.rets.filter (fun r => r.fresh && r.exec == c)).length = if (s.lret c).isSome ∧ s.pan c = false then 1 else 0 :=
   SF.fresh_reach h c
+
+/-! ### a panicking user function (outside the property's quantifier; this is what the code does)
+`makeCall`'s deferred block runs while the panic unwinds: the key is deleted under the lock, the wait group is
+released, then the panic propagates to the leader's caller.  `c.val, c.err = fn()` never executed, so every
+joiner of that flight returns the zero values `(nil, nil)` — silently, with `fresh = false`. Nobody hangs. -/
+
+/-- joiners of a flight whose function panicked get the zero value, not reported fresh; the leader itself never
+returns from such a call. -/
+theorem sf_panic_joiners_zero {s : SF.St} (h : SF.Reach s) (r : Ret) (hr : r ∈ s.rets) (hp : s.pan r.exec = true) :
+    r.val = 0 ∧ r.fresh = false := by
+  have hi := SF.inv_reach h
+  obtain ⟨a1, a2, _⟩ := hi.rets r hr
+  have hz := hi.panz r.exec a1 hp
+  rw [a2] at hz
+  refine ⟨by simpa using hz, ?_⟩
+  have hf := SF.fresh_reach h r.exec
+  rw [hp] at hf
+  simp only [Bool.true_eq_false, and_false, if_false] at hf
+  unfold SF.freshCount at hf
+  rw [List.length_eq_zero_iff] at hf
+  cases hfr : r.fresh with
+  | false => rfl
+  | true =>
+    exfalso
+    have hmem : r ∈ s.rets.filter (fun q => q.fresh && q.exec == r.exec) := by
+      simp [List.mem_filter, hr, hfr]
+    rw [hf] at hmem
+    simp at hmem
+
+/-- when the panic leaves `Do`/`DoEx` (`px`), the deferred cleanup is complete: the wait group is released and
+the key no longer maps to this call — the next caller starts a new flight, nobody is left waiting. -/
+theorem sf_panic_cleanup {s : SF.St} (h : SF.Reach s) (t : Tid) (ht : s.pc t = .px) :
+    s.wg (s.reg t) = 0 ∧ s.calls (s.key t) ≠ some (s.reg t) ∧ s.pan (s.reg t) = true := by
+  have hi := SF.inv_reach h
+  have ho := hi.owns t (by simp [ht, SF.PC.owns])
+  refine ⟨hi.wg0 t (Or.inr (by simp [ht, SF.PC.after])), ?_, ?_⟩
+  · intro hc
+    have := (hi.calls _ _ hc).2.2.1
+    rw [ho.2.1, ht] at this
+    simp [SF.PC.inFlight] at this
+  · rw [hi.pnown t (by simp [ht, SF.PC.owns])]; exact hi.pnpx t ht
+
+/-- a non-panicking execution is never cut short: a goroutine that returns fresh went through the store. -/
+theorem sf_fresh_not_panicked {s : SF.St} (h : SF.Reach s) (r : Ret) (hr : r ∈ s.rets) (hf : r.fresh = true) :
+    s.pan r.exec = false := by
+  cases hp : s.pan r.exec with
+  | false => rfl
+  | true => have := (sf_panic_joiners_zero h r hr hp).2; rw [hf] at this; cases this
+
+/-! ### a re-entrant call on the same key (outside the quantifier): self-deadlock
+If `fn` itself calls `Do` with the key it is running for, the inner call finds the outer call's entry and waits for
+its `Done`, which only comes after `fn` returns.  In the model: goroutine `u` (the inner call) waits on the call
+object of leader `t` whose function is still running; as long as `t` does not take its `fn returns` step (it
+cannot: `fn` is waiting for `u`), `u` stays blocked — whatever all other goroutines do. -/
+theorem sf_reentrant_blocked {s s' : SF.St} (h : SF.Reach s) (t u v : Tid) (x : Nat)
+    (ht : (s.pc t).running = true) (hu : s.pc u = .w1) (hreg : s.reg u = s.reg t)
+    (hv : v ≠ t) (hs : SF.step s v x = some s') :
+    (s'.pc t).running = true ∧ s'.pc u = .w1 ∧ s'.reg u = s'.reg t ∧ ∀ y, SF.step s' u y = none := by
+  have hi := SF.inv_reach h
+  have hw := hi.wg1 t (by revert ht; cases s.pc t <;> simp [SF.PC.running, SF.PC.wgOne])
+  have ho := hi.owns t (by revert ht; cases s.pc t <;> simp [SF.PC.running, SF.PC.owns])
+  have hov := hi.owns v
+  have hne : u ≠ t := by intro e; rw [e] at hu; rw [hu] at ht; simp [SF.PC.running] at ht
+  have key : (s'.pc t).running = true ∧ s'.pc u = .w1 ∧ s'.reg u = s'.reg t ∧ s'.wg (s'.reg u) ≠ 0 := by
+    by_cases huv : v = u
+    · subst huv
+      unfold SF.step at hs
+      rw [hu] at hs
+      simp [hreg, hw] at hs
+    · unfold SF.step at hs
+      split at hs <;> (try split at hs) <;> simp at hs <;> (try subst hs) <;>
+        simp [upd, SF.PC.owns, SF.PC.running] at * <;> grind
+  refine ⟨key.1, key.2.1, key.2.2.1, fun y => ?_⟩
+  unfold SF.step
+  rw [key.2.1]
+  simp [key.2.2.2]
 
 /-- a SingleFlight step is disabled only at the mutex or at a wait group. -/
 theorem sf_blocked_cases {s : SF.St} {t : Tid} {x : Nat} (hb : SF.step s t x = none) :
@@ -124,7 +203,7 @@ theorem sf_keys_independent {s : SF.St} (h : SF.Reach s) (t : Tid) (x : Nat) (hb
       have h0 := hi.wg0 (s.leader (s.reg t))
       rw [hreg] at h0
       revert hpub h0
-      cases s.pc (s.leader (s.reg t)) <;> simp [SF.PC.pubd, SF.PC.wgOne] <;> omega
+      cases s.pc (s.leader (s.reg t)) <;> simp [SF.PC.pubd, SF.PC.wgOne, SF.PC.after] <;> omega
 
 /-- **No deadlock, no lost wake-up**: whenever some call is in progress, some goroutine that is inside a call
 can take a step (for every environment input). -/
@@ -135,7 +214,7 @@ theorem sf_no_deadlock {s : SF.St} (h : SF.Reach s) (t : Tid) (ht : s.pc t ≠ .
   have indep : ∀ u y z, (SF.step s u y).isSome = true → (SF.step s u z).isSome = true := by
     intro u y z
     unfold SF.step
-    cases s.pc u <;> simp <;> (try split) <;> simp
+    cases s.pc u <;> simp <;> (try split) <;> (try split) <;> simp
   have lockcase : s.lock ≠ none → ∃ u, s.pc u ≠ .idle ∧ ∀ y, (SF.step s u y).isSome = true := by
     intro hl
     cases hlk : s.lock with
@@ -186,6 +265,31 @@ theorem sfDemo_reach : ∀ s, SF.run SF.init sfDemo = some s → SF.Reach s := b
 
 example : (SF.run SF.init sfDemo).map (fun s => s.rets.map fun r => (r.tid, r.key, r.val, r.fresh, r.exec))
     = some [(2, 7, 42, false, 0), (1, 7, 42, false, 0), (0, 7, 42, true, 0)] := by decide
+
+/-- a panicking leader: goroutine 0 leads on key 7 and its function panics (input 1 at `fn starts`); goroutine 1
+joined while it ran.  1 returns the zero value, not fresh; 0's call ends without a return record; the key is
+free again (goroutine 2 then leads a new flight and returns 5, fresh). -/
+def sfPanicDemo : List (Tid × Nat) :=
+  [(0,7),(0,0),(0,0),(0,0),(0,0),(0,0),(0,0),(0,1),   -- 0: invoke … fn started, will panic (mp)
+   (1,7),(1,0),(1,0),(1,0),                            -- 1: joins, waits
+   (0,0),                                              -- 0: fn panics
+   (0,0),(0,0),(0,0),(0,0),(0,0),                      -- 0: deferred lock, delete, unlock, Done; panic leaves Do
+   (1,0),(1,0),                                        -- 1: wakes, returns (nil, nil)
+   (2,7),(2,0),(2,0),(2,0),(2,0),(2,0),(2,0),(2,0),(2,5),(2,0),(2,0),(2,0),(2,0),(2,0),(2,0)]
+
+example : (SF.run SF.init sfPanicDemo).map (fun s => s.rets.map fun r => (r.tid, r.key, r.val, r.fresh, r.exec))
+    = some [(2, 7, 5, true, 1), (1, 7, 0, false, 0)] := by decide
+example : (SF.run SF.init sfPanicDemo).map (fun s => (s.pc 0, s.pan 0, s.pan 1, (s.calls 7).isNone))
+    = some (SF.PC.idle, true, false, true) := by decide
+
+/-- in `sfPanicDemo` after 17 steps goroutine 0 is at `px`: `sf_panic_cleanup`'s hypotheses are inhabited. -/
+example : (SF.run SF.init (sfPanicDemo.take 17)).map (fun s => (s.pc 0, s.wg 0, (s.calls 7).isNone, s.pc 1))
+    = some (SF.PC.px, 0, true, SF.PC.w1) := by decide
+
+/-- `sf_reentrant_blocked` is inhabited: in `sfDemo` after 12 steps goroutine 0 runs its function and goroutine 1
+waits on the same call object. -/
+example : (SF.run SF.init (sfDemo.take 12)).map (fun s => (s.pc 0, s.pc 1, decide (s.reg 1 = s.reg 0)))
+    = some (SF.PC.m1, SF.PC.w1, true) := by decide
 
 /-- in `sfDemo`, after 12 steps goroutine 1 is blocked at `c.wg.Wait()`; `sf_keys_independent` names goroutine 0
 (same key), and `sf_no_deadlock` is witnessed by goroutine 0 being enabled. -/
@@ -290,7 +394,7 @@ theorem lc_no_deadlock {s : LC.St} (h : LC.Reach s) (t : Tid) (ht : s.pc t ≠ .
   have indep : ∀ u y z, (LC.step s u y).isSome = true → (LC.step s u z).isSome = true := by
     intro u y z
     unfold LC.step
-    cases s.pc u <;> simp <;> (try split) <;> simp
+    cases s.pc u <;> simp <;> (try split) <;> (try split) <;> simp
   have lockcase : s.lock ≠ none → ∃ u, s.pc u ≠ .idle ∧ ∀ y, (LC.step s u y).isSome = true := by
     intro hl
     cases hlk : s.lock with
@@ -329,6 +433,19 @@ example : (LC.run LC.init lcDemo).map (fun s => s.rets.map fun r => (r.tid, r.ke
 /-- goroutine 1 really is blocked at `wg.Wait()` while 0 runs, and `lc_keys_independent` names 0 (same key). -/
 example : (LC.run LC.init (lcDemo.take 12)).map (fun s => (s.pc 1, (LC.step s 1 0).isSome, decide (s.key 0 = s.key 1)))
     = some (LC.PC.b3, false, true) := by decide
+
+/-- a panicking caller function (outside the quantifier): goroutine 0's function on key 3 panics while goroutine 1
+waits for the key; the deferred block still deletes the entry and releases the wait group, the panic leaves `Do`
+(no return record for 0), and goroutine 1 then runs its own function.  All LockedCalls theorems above quantify over
+these schedules too (`lc_no_deadlock`: nobody is left waiting). -/
+def lcPanicDemo : List (Tid × Nat) :=
+  [(0,3),(0,0),(0,0),(0,0),(0,0),(0,0),(0,0),(0,1),          -- 0: … fn started, will panic (fp)
+   (1,3),(1,0),(1,0),(1,0),                                   -- 1: finds 0's wait group, now at Wait
+   (0,0),(0,0),(0,0),(0,0),(0,0),(0,0),                       -- 0: fn panics; delete, unlock, Done; panic leaves Do
+   (1,0),(1,0),(1,0),(1,0),(1,0),(1,0),(1,0),(1,0),(1,6),(1,0),(1,0),(1,0),(1,0),(1,0)] -- 1: retry, own fn → 6
+
+example : (LC.run LC.init lcPanicDemo).map (fun s => (s.rets.map fun r => (r.tid, r.key, r.val, r.runs), s.pc 0))
+    = some ([(1, 3, 6, 1)], LC.PC.idle) := by decide
 
 /-! ## ResourceManager (core/syncx/resourcemanager.go) -/
 
@@ -380,5 +497,44 @@ def rmDemo : List (Tid × Nat) :=
 
 example : (RM.run RM.init rmDemo).map (fun s => (s.rets.map fun r => (r.tid, r.key, r.val), s.ncreate 2, s.res 2))
     = some ([(2, 2, 9), (0, 2, 9), (1, 2, 0), (0, 2, 0)], 1, some 9) := by decide
+
+/-! ### a panicking `create` (outside the property's quantifier; this is what the code does)
+The flight group cleans up as in `sf_panic_cleanup` and the panic leaves `GetResource` in the leader.  A joiner gets
+`(nil, nil)` from `Do` and `val.(io.Closer)` then panics with a nil interface conversion: joiners of a panicked
+flight panic as well (rows `w2`/`px` of the model); nothing is stored, the next caller creates afresh.  All `rm_*`
+theorems above quantify over these schedules too. -/
+theorem rm_panic_cleanup {s : RM.St} (h : RM.Reach s) (t : Tid) (ht : s.pc t = .px) :
+    s.wg (s.reg t) = 0 ∧ s.calls (s.key t) ≠ some (s.reg t) := by
+  have hi := RM.inv_reach h
+  have ho := hi.owns t (by simp [ht, RM.PC.owns])
+  refine ⟨hi.wg0 t (Or.inr (by simp [ht, RM.PC.after])), ?_⟩
+  intro hc
+  have := (hi.calls _ _ hc).2.2.1
+  rw [ho.2.1, ht] at this
+  simp [RM.PC.inFlight] at this
+
+/-- goroutine 0's `create` for key 2 panics while goroutine 1 has joined the flight: neither call returns
+(both panic), nothing is stored or counted; goroutine 2 then creates instance 9. -/
+def rmPanicDemo : List (Tid × Nat) :=
+  [(0,2)] ++ List.replicate 10 (0,0) ++ [(0,1)] ++   -- 0: invoke … create() running, will panic (gp)
+  [(1,2),(1,0),(1,0),(1,0)] ++                    -- 1: joins the flight
+  List.replicate 6 (0,0) ++                       -- 0: create panics; delete, unlock, Done; panic leaves GetResource
+  [(1,0),(1,0)] ++                                -- 1: wakes; val.(io.Closer) panics
+  [(2,2)] ++ List.replicate 11 (2,0) ++ [(2,9)] ++ List.replicate 9 (2,0)   -- 2: creates 9
+
+example : (RM.run RM.init rmPanicDemo).map
+      (fun s => (s.rets.map fun r => (r.tid, r.key, r.val), s.ncreate 2, s.res 2, s.pc 0, s.pc 1))
+    = some ([(2, 2, 9)], 1, some 9, RM.PC.idle, RM.PC.idle) := by decide
+
+/-! `Inject` (outside `RM.Reach`; what the code does): registered *before* any call it is simply the instance
+everyone gets and `create` never runs; registered *after* a successful create it replaces the stored instance, so
+later callers hold a different instance than earlier ones — `Inject` is a test hook, not covered by the property. -/
+example : ((RM.inject RM.init 2 5).bind fun s => RM.run s ([(0,2)] ++ List.replicate 16 (0,0))).map
+      (fun s => (s.rets.map fun r => (r.tid, r.key, r.val), s.ncreate 2))
+    = some ([(0, 2, 5)], 0) := by decide
+
+example : (((RM.run RM.init rmDemo).bind fun s => RM.inject s 2 5).bind fun s =>
+        RM.run s ([(3,2)] ++ List.replicate 16 (3,0))).map (fun s => s.rets.map fun r => (r.tid, r.key, r.val))
+    = some [(3, 2, 5), (2, 2, 9), (0, 2, 9), (1, 2, 0), (0, 2, 0)] := by decide
 
 end GoZero.C07
